@@ -5,6 +5,7 @@ package main
 import (
 	"fmt"
 	"regexp"
+	"sort"
 	"strconv"
 	"strings"
 )
@@ -571,6 +572,51 @@ func init() {
 		for _, s := range []string{"", " ", "()", "MIT", "mit", "MIT AND ISC", "(MIT)", "MIT OR", "FOO"} {
 			if f := c04String(s, -1); f != nil {
 				fail(*f)
+			}
+		}
+		// lists whose entries are FRAGMENTS of one valid expression (cut at token boundaries): each fragment alone is invalid
+		// (or a different expression), while any re-joining of the entries — by spaces, by OR, in parentheses — is valid again;
+		// an implementation that parses the list as one text accepts them
+		{
+			frag := func(text string) {
+				toks := strings.Fields(strings.NewReplacer("(", " ( ", ")", " ) ").Replace(text))
+				if len(toks) < 2 {
+					return
+				}
+				for cuts := 1; cuts <= 3 && cuts < len(toks); cuts++ {
+					pos := rng.Perm(len(toks) - 1)[:cuts]
+					sort.Ints(pos)
+					var l []string
+					prev := 0
+					for _, c := range pos {
+						l = append(l, strings.Join(toks[prev:c+1], " "))
+						prev = c + 1
+					}
+					l = append(l, strings.Join(toks[prev:], " "))
+					count("fragment_lists")
+					if f := c04List(l); f != nil {
+						fail(*f)
+					}
+				}
+			}
+			for _, text := range []string{"(MIT) OR (ISC)", "(MIT OR ISC)", "((MIT) OR (ISC))", "(MIT) AND (ISC) OR (Zlib)", "MIT OR ISC", "MIT AND ISC OR Zlib",
+				"GPL-2.0-only WITH Classpath-exception-2.0", "DocumentRef-a : LicenseRef-b", "(MIT", "MIT)"} {
+				for r := 0; r < 4; r++ {
+					frag(text)
+				}
+			}
+			for _, l := range [][]string{{"(MIT", "ISC)"}, {"(MIT", "Zlib", "ISC)"}, {"((MIT", "ISC))"}, {"MIT)", "(ISC"}, {"(MIT", "ISC)", "MIT"}, {"MIT", "(MIT", "ISC)"},
+				{"MIT OR", "ISC"}, {"MIT", "OR ISC"}, {"MIT) OR (ISC"}, {"(", "MIT", ")"}, {"MIT WITH", "Classpath-exception-2.0"}, {"DocumentRef-a:", "LicenseRef-b"}} {
+				count("fragment_lists")
+				if f := c04List(l); f != nil {
+					fail(*f)
+				}
+			}
+			nf := scale(150, 1500)
+			for i := 0; i < nf && !timeUp("props_text.go:fragments"); i++ {
+				c := genTreeCase(3, 4)
+				frag(c.text)
+				frag("(" + c.text + ")")
 			}
 		}
 		// boundary sizes of nesting and of flat chains: all entry points (and the model) must agree there as well
